@@ -136,3 +136,12 @@ def laws(ctx, which=("Exact", "Bracket", "Neutral")):
             raise MachineryFailure("MC_Laws negative control: an unlawful blueprint was not rejected")
     finally:
         tlc.cleanup(wd)
+
+
+def factorize(ctx):
+    n, nt = (3, 4) if ctx.tier == "quick" else (5, 4)
+    cfg = (f"SPECIFICATION Spec\nCHECK_DEADLOCK FALSE\nCONSTANTS MaxLen = {n}\nNTok = {nt}\nINVARIANT GroupsAreContract\n"
+           "INVARIANT CodesPointAtSlots\nINVARIANT BinsLikeCut\nINVARIANT RavelOk\nINVARIANT OffsetsOk\n")
+    res = shared.run_model(ctx, "MC_Factorize", cfg, name="MC_Factorize", constants=f"MaxLen={n}, NTok={nt}", coverage=True, must_cover=("Grow",))
+    if res.violated:
+        raise MachineryFailure(f"MC_Factorize: {res.violated} violated: {res.error_trace[-1:]}")
